@@ -68,6 +68,16 @@ Theorem C10_rpc_name_trimmed : forall prefix name,
 Proof. exact rpc_mapper_no_outer_dot. Qed.
 Print Assumptions C10_rpc_name_trimmed.
 
+(* The identifier handed to the mapper is exactly the declared one: for a type string / runtime
+   function name "<qualifier>.<ident>" (ident without '.'), ctrlStructName / handlerFuncName
+   return ident unchanged - no character is added or removed, whatever ident ends in - and an
+   unqualified name is returned as is. *)
+Theorem C10_object_ident_exact : forall q ident,
+  ~ In c_dot ident ->
+  object_ident (q ++ c_dot :: ident) = ident /\ object_ident ident = ident.
+Proof. exact object_ident_exact. Qed.
+Print Assumptions C10_object_ident_exact.
+
 (* ---- routing, for ALL registration sequences (induction over the list of operations) ---- *)
 
 (* After any successful sequence, a lookup in namespace s finds handler h under name n
@@ -226,6 +236,14 @@ Example C10_example_self_conflict :
   /\ run MHTTP init [ OReg CALL [] (IStruct (str "T") [(str "AaB", str "h1"); (str "Aa__B", str "h2")]) ]
      = Error (str "/t/aa_b").
 Proof. split; vm_compute; reflexivity. Qed.
+
+(* identifiers ending in f / m / -, a method expression, a bound method value *)
+Example C10_example_object_ident :
+  object_ident (str "verifharness/cmd/c10/corpus/callf.Confirm") = str "Confirm" /\
+  object_ident (str "*callc.Handoff") = str "Handoff" /\
+  object_ident (str "verifharness/cmd/c10/corpus/callf.(*Mx).Buff") = str "Buff" /\
+  object_ident (str "verifharness/cmd/c10/corpus/callf.(*Bd).Inform-fm") = str "Inform-fm".
+Proof. vm_compute. repeat split. Qed.
 
 (* the guards of C10_http_mapper_plain are satisfiable *)
 Example C10_example_plain :
